@@ -344,7 +344,7 @@ def case(ctx, rng, idx):
             ctx.violation("c-boundary-exception:%s@%s" % (type(exc).__name__, cfg["fn"]), "%s raised %r" % (cfg["fn"], exc), w)
         return
     # results must still be well formed (memory corruption often shows up as garbage states/values)
-    if cfg["stale"] or cfg["class"] == "raw-repeated-labels":
+    if cfg["stale"] or cfg["class"] == "raw-repeated-labels" or (cfg["type"] == "dict" and cfg["class"] != "generic"):
         # (raw keys whose terms cancel leave the labelled model built from them with stale variables as well)
         dom = (1, -1) if A.is_spin(cfg["fn"]) else (0, 1)
         for r in res:
